@@ -37,6 +37,12 @@ class Index(list):
             return Index(list(o) + list(self))
         return Index([o + v for v in self])
 
+    def __iadd__(self, o):  # pandas: index += k builds a new index (no in-place list extension)
+        return self.__add__(o)
+
+    def __mul__(self, o):
+        return Index([v * o for v in self])
+
     def __sub__(self, o):
         return Index([v - o for v in self])
 
